@@ -170,7 +170,7 @@ def snap(agent, with_sigma):
     s = agent.sigma_inv
     d = {"numel": int(agent.numel), "bound": bool(agent.exp_layer is lay),
          "shape": [int(x) for x in s.shape], "live": layer_desc(lay),
-         "sigma": None, "dtype": str(s.dtype), "lamb": float(agent.lamb)}
+         "sigma": None, "dtype": str(s.dtype), "lamb": float(agent.lamb), "gamma": float(agent.gamma)}
     if with_sigma and s.dim() == 2 and s.shape[0] <= NMAX and s.shape[1] <= NMAX:
         d["sigma"] = [[(float(x) if np.isfinite(x) else None) for x in row] for row in s.detach().cpu().double().numpy()]
     return d
@@ -310,9 +310,10 @@ class LoopRecorder:
             with torch.no_grad():
                 mu0 = agent.actor(torch.as_tensor(ctx)).detach().cpu().double().numpy().reshape(-1)
             S_before = agent.sigma_inv.detach().clone()
+            gamma_used = float(agent.gamma)          # the gamma the agent holds when it decides
             with CaptureBonus() as cap:
                 a = me.o_act(agent, obs, action_mask=action_mask)
-            r = {"op": "act", "action": int(a), "G": [[float(x) for x in row] for row in G]}
+            r = {"op": "act", "action": int(a), "G": [[float(x) for x in row] for row in G], "gamma_used": gamma_used}
             if S_before.shape == (G.shape[1], G.shape[1]):
                 g32 = torch.as_tensor(G)
                 rad = torch.matmul(torch.matmul(g32[:, None, :], S_before), g32[:, :, None])[:, 0, 0]
@@ -388,7 +389,8 @@ def build_agent(case):
         if case.get("partial"):
             net_config = {"head_config": head}      # partial configuration: default encoder
     hp = HyperparameterConfig(lr=RLParameter(min=1e-4, max=1e-2), batch_size=RLParameter(min=4, max=32, dtype=int),
-                              learn_step=RLParameter(min=1, max=8, dtype=int), lamb=RLParameter(min=0.1, max=4.0))
+                              learn_step=RLParameter(min=1, max=8, dtype=int), lamb=RLParameter(min=0.1, max=4.0),
+                              gamma=RLParameter(min=0.25, max=4.0))
     lam, gamma = case["lam"], case["gamma"]
     if case.get("int_params"):                  # the constructor also accepts ints for lamb / gamma
         lam, gamma = int(lam), int(gamma)
@@ -529,13 +531,19 @@ class C19(vlib.Driver):
             cases.append(base(algo=algo_, lam=rng.choice([0.3, 3.0]), head=[rng.randint(1, 4)],
                               ops=[L_, ["act", None], ["learn"], L_, ["learn"], ["act", None], ["mut", "param", 1], L_,
                                    ["reload", "load_checkpoint"], ["act", None], ["mut", "none", 1], ["act", None]]))
+        for algo_ in ("ucb", "ts"):      # gamma (bonus scale) is a legal entry too: the bonus must use the agent's current gamma
+            Gm_ = ["mut", "rl_hp_gamma", 0]
+            cases.append(base(algo=algo_, gamma=rng.choice([0.5, 1.0, 2.0]), every=1,
+                              ops=[["act", None], Gm_, ["act", None], ["act", [1, 1, 0]], Gm_, ["mut", "rl_hp_lamb", 0], ["act", None], ["clone"],
+                                   ["act", None]]))
         # round 3: the IDENTICAL context matrix in consecutive decisions, with no / one / several learn steps (and a direct parameter
         # mutation) in between: the features must be those of the CURRENT network (recomputed independently by autograd)
         for algo_ in ("ucb", "ts"):
             S_ = ["act", None, "same"]
             cases.append(base(algo=algo_, lr=1e-2, lam=rng.choice([0.5, 2.0]), every=1,
                               ops=[["act", None], S_, ["learn"], S_, ["learn"], ["learn"], ["learn"], S_, S_, ["direct", "param", 1], S_,
-                                   ["act", None], ["learn"], ["act", [1, 1, 0], "same"]]))
+                                   ["act", None], ["learn"], ["act", [1, 1, 0], "same"], ["clone"], S_, ["learn"], ["reload", "load"], S_,
+                                   ["mut", "param", 1], S_, ["learn"], ["reload", "load_checkpoint"], S_]))
             cases.append(base(algo=algo_, lr=1e-2, space="image" if algo_ == "ucb" else "dict", head=[2], every=1,
                               ops=[["act", None], ["learn"], S_, ["learn"], S_]))
         # the real training loop (train_bandits) with and without tournament selection + mutation
@@ -701,6 +709,7 @@ class C19(vlib.Driver):
                     G = features(agent, ctx)
                     mu0 = net_out(agent, ctx)
                     S_before = agent.sigma_inv.detach().clone()
+                    rec["gamma_used"] = float(agent.gamma)          # the gamma the agent holds when it decides
                     with CaptureBonus() as cap:
                         a = int(agent.get_action(ctx, action_mask=mask))
                     rec["action"] = a
@@ -719,9 +728,9 @@ class C19(vlib.Driver):
                     exp = {"obs": make_ctx(case, rs, rows=B, for_learn=True),
                            "reward": torch.as_tensor(rs.randint(0, 2, size=(B, 1)).astype(np.float32))}
                     rec["loss"] = float(agent.learn(exp))
-                elif op[0] == "mut" and op[1] == "rl_hp_lamb":
+                elif op[0] == "mut" and op[1] in ("rl_hp_lamb", "rl_hp_gamma"):
                     m = make_mutations("rl_hp", case["seed"] + oi)
-                    with ScriptedHP("lamb"):
+                    with ScriptedHP(op[1][len("rl_hp_"):]):
                         agent = m.mutation([agent])[0]
                     rec["mut"] = str(agent.mut)
                 elif op[0] == "mut":
@@ -847,6 +856,7 @@ class C19(vlib.Driver):
             return "false"      # NaN / inf in sigma_inv or in a feature: no rational model value can agree
         lam_cur, prev = float(case["lam"]), obs["init"]
         for op, rec in zip(case["ops"], obs["trace"]):
+            g_before = float(prev.get("gamma", case["gamma"]))      # the gamma the agent held when this op started
             lam_new = float(rec.get("lamb", lam_cur))
             if lam_new != lam_cur:
                 # agent.lamb changed during this op (an RL-hyperparameter mutation drew `lamb`): a SetLam step of the model,
@@ -867,7 +877,7 @@ class C19(vlib.Driver):
                 if not (0 <= a < len(rec["G"])):
                     break
                 ops.append("Act [" + "; ".join(coq_Q(x) for x in rec["G"][a]) + "]")
-                obl.append(self.q_obs(rec, rec["G"], float(case["gamma"])))
+                obl.append(self.q_obs(rec, rec["G"], float(rec.get("gamma_used", g_before))))
                 continue
             if kind == "learn":
                 ops.append("Learn")
@@ -991,6 +1001,7 @@ class C19(vlib.Driver):
             if lam_new != L[0]:
                 L[0], L[1] = lam_new, True
             lam = L[0]
+            gam = float((obs["trace"][oi - 1] if oi > 0 else init).get("gamma", case["gamma"]))   # gamma when this op started
             if any(v.clause != "exp-layer-stale" for v in out):
                 break
             if not check_size(rec, where):
@@ -1009,7 +1020,7 @@ class C19(vlib.Driver):
                         V("bonus", f"{where}: radicand g S g^T of the exploration bonus is negative / NaN: {rec['radicand']}")
                 if rec.get("bonus") is not None and "radicand" in rec and len(rec["bonus"]) == len(rec["radicand"]):
                     for k, (b, r) in enumerate(zip(rec["bonus"], rec["radicand"])):
-                        want = float(case["gamma"]) * np.sqrt(max(r, 0.0)) if r is not None else None
+                        want = float(rec.get("gamma_used", gam)) * np.sqrt(max(r, 0.0)) if r is not None else None
                         if b is None or b < -1e-5 or (want is not None and abs(b - want) > 1e-3 * (1 + want)):
                             V("bonus", f"{where}: exploration bonus of arm {k} is {b}, expected gamma*sqrt(g S g^T) = {want} >= 0")
                             break
